@@ -277,6 +277,9 @@ def run_case(case) -> Outcome:
             variants = [False]
             if fault == "unterminated-text":
                 variants = [False, True]
+            elif fault in SEMANTIC and not steps and index == len(case["ir"]):
+                # the erroneous statement is the last one of the main file, which ends right after it (no final newline)
+                variants = [False, True]
             for eof in variants:
                 sub = {"t": "one", "rom": case["rom"], "ir": case["ir"], "files": case.get("files") or {}, "layout_seed": case["layout_seed"], "fault": fault,
                        "steps": [list(s) for s in steps], "index": index, "indent": rng.choice(["", " ", "    ", "\t", " \t"]),
